@@ -356,7 +356,13 @@ class Program:
         for q, (kind, r) in enumerate(reqs):
             who = '*' if self.np == 1 else str(q)
             if kind == 'zero':
-                ln = self.emit('%s put 0 c %s pat 1' % (who, r), kind='zput', rank=q)
+                zp = parse_acc(r)
+                zp['memk'] = v.xtype
+                ln = self.emit('%s put 0 c %s pat 1' % (who, r), kind='zput', rank=q, p=zp, vals=[], keys=[])
+                if zp['form'] == 'varn':
+                    # ncbbio_log_put_varn has no "skip zero-length request": an entry of length 0 is logged and replayed
+                    self.ops.append('OPut %d %d %s' % (ln, q, coq_req(v.vid, v.isrec, ELSIZE[v.xtype], 'varn', zp['parts'], [])))
+                    self.replay_order[q].append(ln)
                 continue
             acc, p, keys, vals, recs = r
             ln = self.emit('%s put 0 c %s pat %d' % (who, acc, p['seed']), kind='put', rank=q, keys=keys, vals=vals, p=p)
